@@ -12,8 +12,8 @@
   sub-selection. So the cyclic case was excluded by hypothesis and never asked.
 
   Now: `Validate/OverlapMemo.lean` models the search WITH the memo of the patch; `overlap_memo_terminates`: on every
-  document with syntactic ranks (`rankSynB`: nesting of selection sets only - NO condition on fragment spreads; every
-  parsed document has them, `synRanks`), a recursion budget of
+  document with well-formed identities (`WfIds`; the syntactic ranks `rankSynB` the proof uses - nesting of selection sets
+  only, NO condition on fragment spreads - exist for every such document: `rankSynB_of_wfIds`; general form `*_ranked`), a recursion budget of
       fuelBound d R = (#sets·#fragments·2 + #fragments²·2) · (2R+7) + 2R+7      (R = maximal rank)
   frames suffices for `find_conflicts_within_selection_set` at EVERY selection set, in every context reached: the
   exception flag stays unset. Measure: triples not yet in the two memos (`mu`), times `2R+7`, plus the syntactic nesting
@@ -34,6 +34,7 @@ import PyGqlModel.Lemmas.ValidateOverlapMemoSound
 import PyGqlModel.Lemmas.ValidateOverlapWalk2
 import PyGqlModel.Lemmas.ValidateOverlapFuel4
 import PyGqlModel.Props.C06_overlap_hyps3
+import PyGqlModel.Lemmas.ValidateOverlapSynRank
 namespace PyGql.Props.C06
 open PyGql PyGql.Validate PyGql.Validate.Spec
 
@@ -63,9 +64,9 @@ def overlapMemoCrash (s : SchemaD) (fx : Fixes) (fuel : Nat) (d : Doc) : Option 
     | .selectionSet i sels => (withinSelectionSetM s fx fuel none i sels c).2
     | _ => c) ({ frags := fragTable d } : OCtx)).crash
 
-/-- **the memoised overlap search terminates on every document**: no `RecursionError` (nor any other exception) with a
-    budget of `fuelBound d R` frames - cyclic fragment graphs included -/
-theorem overlap_memo_terminates (s : SchemaD) (fx : Fixes) (h7 : fx.v7 = true) (d : Doc) (ρ : Nat → Nat) (R : Nat)
+/-- the general form of `overlap_memo_terminates`: ANY syntactic ranking `ρ` with bound `R` (checked: `rankSynB`) gives the
+    fuel bound `fuelBound d R` -/
+theorem overlap_memo_terminates_ranked (s : SchemaD) (fx : Fixes) (h7 : fx.v7 = true) (d : Doc) (ρ : Nat → Nat) (R : Nat)
     (hρ : rankSynB s d ρ R = true) (fuel : Nat) (hfuel : fuelBound d R ≤ fuel) :
     overlapMemoCrash s fx fuel d = none := by
   have hR := rankSyn_of_check s d ρ R hρ
@@ -89,12 +90,27 @@ theorem overlap_memo_terminates (s : SchemaD) (fx : Fixes) (h7 : fx.v7 = true) (
       | _ => exact hc
   exact (key (nodes d) (fun _ h => h) _ (Good.refl _)).2.2.2
 
-/-- in every context reached, at every selection set, under any parent type -/
-theorem within_memo_terminates (s : SchemaD) (fx : Fixes) (h7 : fx.v7 = true) (d : Doc) (ρ : Nat → Nat) (R : Nat)
+/-- **the memoised overlap search terminates on every document**: no `RecursionError` (nor any other exception) with a
+    budget of `fuelBound d R` frames, `R` the maximal syntactic rank - cyclic fragment graphs included. The only
+    hypothesis is `WfIds d` (selection-set identities pairwise distinct: every parsed document); the syntactic ranks
+    the proof needs exist for every such document (`rankSynB_of_wfIds`). -/
+theorem overlap_memo_terminates (s : SchemaD) (fx : Fixes) (h7 : fx.v7 = true) (d : Doc) (hw : WfIds d) (fuel : Nat)
+    (hfuel : fuelBound d (maxRank (synRanks d)) ≤ fuel) : overlapMemoCrash s fx fuel d = none :=
+  overlap_memo_terminates_ranked s fx h7 d _ _ (rankSynB_of_wfIds s d hw) fuel hfuel
+
+/-- general form of `within_memo_terminates` (any checked syntactic ranking) -/
+theorem within_memo_terminates_ranked (s : SchemaD) (fx : Fixes) (h7 : fx.v7 = true) (d : Doc) (ρ : Nat → Nat) (R : Nat)
     (hρ : rankSynB s d ρ R = true) (fuel : Nat) (hfuel : fuelBound d R ≤ fuel) (p : Option String) (i : Nat)
     (sels : List Sel) (c : OCtx) (hc : c.frags = fragTable d) (h1 : SelSet d i sels) :
     (withinSelectionSetM s fx fuel p i sels c).2.crash = c.crash :=
   (withinM_terminates s fx d ρ R (rankSyn_of_check s d ρ R hρ) h7 fuel hfuel p i sels c hc h1).2.2.2
+
+/-- in every context reached, at every selection set, under any parent type (`WfIds d` only) -/
+theorem within_memo_terminates (s : SchemaD) (fx : Fixes) (h7 : fx.v7 = true) (d : Doc) (hw : WfIds d) (fuel : Nat)
+    (hfuel : fuelBound d (maxRank (synRanks d)) ≤ fuel) (p : Option String) (i : Nat)
+    (sels : List Sel) (c : OCtx) (hc : c.frags = fragTable d) (h1 : SelSet d i sels) :
+    (withinSelectionSetM s fx fuel p i sels c).2.crash = c.crash :=
+  within_memo_terminates_ranked s fx h7 d _ _ (rankSynB_of_wfIds s d hw) fuel hfuel p i sels c hc h1
 
 /-! ### the memoised RULE as the driver runs it (`Validate/ChainMemo.lean: overlapMemoRun`, `runMemo`) -/
 
@@ -125,9 +141,9 @@ private theorem memoRun_fold (s : SchemaD) (fx : Fixes) (d : Doc) (fuel : Nat) (
       · exact hstep i sels v acc (hsub _ (List.mem_cons_self ..)) h
     | _ => exact h
 
-/-- **the memoised rule never crashes**, on any document (with syntactic ranks - every parsed document; the driver
-    reports the check as `syn_rank`), cyclic fragment graphs included -/
-theorem overlap_memo_run_no_crash (s : SchemaD) (fx : Fixes) (h7 : fx.v7 = true) (d : Doc)
+/-- `overlap_memo_run_no_crash` with the computable check of the syntactic ranks as its hypothesis (the driver reports the
+    check as `syn_rank`) -/
+theorem overlap_memo_run_no_crash_ranked (s : SchemaD) (fx : Fixes) (h7 : fx.v7 = true) (d : Doc)
     (hρ : rankSynB s d (rankOf (synRanks d)) (maxRank (synRanks d)) = true) :
     (overlapMemoRun s fx d).2.crash = none := by
   have hR := rankSyn_of_check s d _ _ hρ
@@ -138,6 +154,12 @@ theorem overlap_memo_run_no_crash (s : SchemaD) (fx : Fixes) (h7 : fx.v7 = true)
         (selSet_of_typed hm)))
     (typedNodes s d) (fun _ h => h) (0, ({ frags := fragTable d } : OCtx)) (Good.refl _)
   exact this.2.2.2
+
+/-- **the memoised rule never crashes**, on any document with well-formed identities (every parsed document), cyclic
+    fragment graphs and any nesting depth included -/
+theorem overlap_memo_run_no_crash (s : SchemaD) (fx : Fixes) (h7 : fx.v7 = true) (d : Doc) (hw : WfIds d) :
+    (overlapMemoRun s fx d).2.crash = none :=
+  overlap_memo_run_no_crash_ranked s fx h7 d (rankSynB_of_wfIds s d hw)
 
 /-- **no false alarm, memoised, on EVERY document** (no side condition at all): where the clause of 5.3.2 holds the
     memoised rule reports nothing -/
@@ -211,7 +233,9 @@ theorem hunt_doc_syn_ranked : rankSynB hSchema hDoc (rankOf (synRanks hDoc)) (ma
 /-- so the memoised search terminates on it, within the bound (by the theorem, and - for the model's fuel 400 - by
     evaluation) -/
 example : overlapMemoCrash hSchema Fixes.all (fuelBound hDoc (maxRank (synRanks hDoc))) hDoc = none :=
-  overlap_memo_terminates hSchema Fixes.all rfl hDoc _ _ hunt_doc_syn_ranked _ (Nat.le_refl _)
+  overlap_memo_terminates hSchema Fixes.all rfl hDoc (by rw [← wfIdsB_iff]; decide) _ (Nat.le_refl _)
+example : overlapMemoCrash hSchema Fixes.all (fuelBound hDoc (maxRank (synRanks hDoc))) hDoc = none :=
+  overlap_memo_terminates_ranked hSchema Fixes.all rfl hDoc _ _ hunt_doc_syn_ranked _ (Nat.le_refl _)
 example : fuelBound hDoc (maxRank (synRanks hDoc)) ≤ overlapFuel ∧ overlapMemoCrash hSchema Fixes.all overlapFuel hDoc = none := by
   decide +kernel
 
